@@ -1,6 +1,6 @@
 //go:build verif
 
-package ws
+package wsutil
 
 import "io"
 
